@@ -93,3 +93,62 @@ func vpH_C05_T_late_create() {
 	vpAuditLog(s.st, "a", false, 0, false)
 	_ = s.e.Stop()
 }
+
+// vpH_C05_T_refresh_after_demotion: the leader's heartbeat tick is inside the (user-provided) health check when
+// the term is ended by a path that leaves the record untouched (ValidateTokenOrDemote with a failing read,
+// placed by the explorer); the tick then completes. If it still refreshes the record, the refresh repeats the
+// term's token and identity (audit of the store log), whatever the accessors say by then.
+func vpH_C05_T_refresh_after_demotion() {
+	hc := &vpHealth{yieldInCheck: true, forceHealthy: true}
+	tm := vpTiming{time.Second, 3 * time.Second}
+	s := vpLeadingInstance(tm, 0, func(cfg *ElectionConfig) { cfg.HealthChecker = hc })
+	s.st.ttl = 0
+	s.kv.opLeft = 12
+	go func() {
+		vpYieldLazy("api.validate", tm.H+tm.H/2)
+		s.kv.faults = []int{vpFaultErr}
+		s.kv.faultOps = "get"
+		s.kv.faultLeft = 1
+		s.kv.faultForce = true
+		_ = s.e.ValidateTokenOrDemote(vpRootCtx())
+		s.kv.faultLeft = 0
+		vpEvent("validated")
+	}()
+	time.Sleep(2*tm.H + tm.H/2)
+	vpQuiesce()
+	vpCover("C05.refresh-after-demotion")
+	vpAuditLog(s.st, "a", false, 0, false)
+	_ = s.e.Stop()
+}
+
+// vpH_C05_T_two_takeover_rounds: a takeover-enabled instance (priority 5) follows an owner it cannot preempt;
+// the record then passes to a lower-priority owner that refreshes it twice at once: two
+// takeover rounds of the same instance in flight. The answer to the first round's read arrives only after the
+// second round has won. Accessors, promotion argument and record agree on the token afterwards, and every
+// refresh repeats it.
+func vpH_C05_T_two_takeover_rounds() {
+	H := time.Second
+	vpSetOpt("rand-fixed", 1)
+	vpOtherPrio = 9
+	s := vpFollowingInstance(H, func(cfg *ElectionConfig) {
+		cfg.Priority = 5
+		cfg.AllowPriorityTakeover = true
+	})
+	vpOtherPrio = 0
+	time.Sleep(700 * time.Millisecond)
+	vpQuiesce()
+	s.kv.opLeft = 40
+	s.kv.getRespSeq = []time.Duration{300 * time.Millisecond}
+	s.st.write("env:low", "update", vpRecMk("low", "tok-low", 1), false, s.st.lastSeq) // change of leader: noted
+	s.st.write("env:low", "update", vpRecMk("low", "tok-low", 1), false, s.st.lastSeq) // refresh: takeover round
+	s.st.write("env:low", "update", vpRecMk("low", "tok-low", 1), false, s.st.lastSeq) // refresh: takeover round
+	time.Sleep(2*H + H/2)
+	vpQuiesce()
+	vpCover("C05.two-takeover-rounds")
+	if s.e.IsLeader() && s.st.live() && s.st.writer == "a" {
+		vpAssert("C05.token-getters", s.e.Token() == vpRecTok(s.st.val) && s.e.Status().Token == vpRecTok(s.st.val))
+		vpAssert("C05.promote-arg", s.cb.lastTok == vpRecTok(s.st.val))
+	}
+	vpAuditLog(s.st, "a", true, 5, false)
+	_ = s.e.Stop()
+}
